@@ -242,9 +242,61 @@ def rule_requested_rules(ctx, rep):
         rep.check("R-REQUESTED-RULES", cm.id, cm.where, ok, "rules", f"requested rules {cm.requested_rules} differ from tool rule ids {cm.rule_ids}")
     for q in ("core_codemods.sonar.api.SonarCodemod.from_core_codemod", "core_codemods.semgrep.api.SemgrepCodemod.from_core_codemod", "core_codemods.defectdojo.api.DefectDojoCodemod.from_core_codemod"):
         fn = ctx.prog.func(q)
-        txt = unparse(fn.node)
-        ok = "requested_rules=[rule_id]" in txt or "requested_rules=[rule.id for rule in rules]" in txt
-        rep.check("R-REQUESTED-RULES", q, fn.loc(), ok, "factory", "from_core_codemod no longer requests exactly the rule ids it puts in ToolMetadata")
+        ok, why = _factory_rules_agree(ctx, fn)
+        rep.check("R-REQUESTED-RULES", q, fn.loc(), ok, "factory", "from_core_codemod no longer requests exactly the rule ids it puts in ToolMetadata: " + why)
+
+
+def _symbolic_ids(r, e, of_rules: bool) -> set[str] | None:
+    """Symbolic set of rule ids: of a `rules=` value (ToolRule objects) or of a `requested_rules=` value (id strings)."""
+    e = r.expand(e)
+    if isinstance(e, (ast.List, ast.Tuple)):
+        out = set()
+        for x in e.elts:
+            if of_rules:
+                x = r.expand(x)
+                if not (isinstance(x, ast.Call) and (last_attr(x.func) or "").endswith("ToolRule")):
+                    return None
+                idv = next((k.value for k in x.keywords if k.arg == "id"), x.args[0] if x.args else None)
+                if idv is None:
+                    return None
+                out.add(unparse(r.expand(idv)))
+            else:
+                out.add(unparse(r.expand(x)))
+        return out
+    if of_rules and isinstance(e, (ast.Name, ast.Attribute)):
+        return {f"ELEMS({unparse(e)}).id"}
+    if isinstance(e, (ast.ListComp, ast.GeneratorExp)) and len(e.generators) == 1 and not e.generators[0].ifs and isinstance(e.generators[0].target, ast.Name):
+        g = e.generators[0]
+        v = g.target.id
+        if of_rules:
+            x = e.elt
+            if isinstance(x, ast.Name) and x.id == v:
+                return {f"ELEMS({unparse(r.expand(g.iter))}).id"}
+            return None
+        if isinstance(e.elt, ast.Attribute) and e.elt.attr == "id" and isinstance(e.elt.value, ast.Name) and e.elt.value.id == v:
+            return _symbolic_ids(r, g.iter, True)  # the ids of the rule objects iterated
+        return None
+    if isinstance(e, ast.Call) and call_name(e) in ("list", "tuple", "sorted") and len(e.args) == 1:
+        return _symbolic_ids(r, e.args[0], of_rules)
+    return None
+
+
+def _factory_rules_agree(ctx, fn) -> tuple[bool, str]:
+    r = ctx.resolver(fn)
+    rr = tr = None
+    for c in walk_no_nested(fn.node):
+        if isinstance(c, ast.Call):
+            for k in c.keywords:
+                if k.arg == "requested_rules":
+                    rr = k.value
+                if k.arg == "rules" and (last_attr(c.func) or "").endswith("ToolMetadata"):
+                    tr = k.value
+    if rr is None or tr is None:
+        return False, "requested_rules= or ToolMetadata(rules=) not found"
+    a, b = _symbolic_ids(r, rr, False), _symbolic_ids(r, tr, True)
+    if a is None or b is None:
+        raise AnalysisError(f"{fn.qname}: rule id expressions not understood (`{unparse(rr)[:40]}` / `{unparse(tr)[:40]}`)")
+    return a == b, f"requested {sorted(a)} vs tool rules {sorted(b)}"
 
 
 OPEN_STATES = {"open", "to_review", "confirmed", "reopened"}
